@@ -6,6 +6,7 @@ import (
 	"math"
 	"math/rand"
 	"reflect"
+	"strings"
 
 	hessian "github.com/vogo/gohessian"
 
@@ -335,6 +336,12 @@ var intKindTypes = []reflect.Type{
 	reflect.TypeOf(uint(0)), reflect.TypeOf(uint8(0)), reflect.TypeOf(uint16(0)), reflect.TypeOf(uint32(0)), reflect.TypeOf(uint64(0)),
 }
 
+var slFieldType = map[reflect.Kind]reflect.Type{
+	reflect.Int: reflect.TypeOf(zoo.SlInt{}), reflect.Int8: reflect.TypeOf(zoo.SlInt8{}), reflect.Int16: reflect.TypeOf(zoo.SlInt16{}), reflect.Int32: reflect.TypeOf(zoo.SlInt32{}),
+	reflect.Int64: reflect.TypeOf(zoo.SlInt64{}), reflect.Uint: reflect.TypeOf(zoo.SlUint{}), reflect.Uint16: reflect.TypeOf(zoo.SlUint16{}), reflect.Uint32: reflect.TypeOf(zoo.SlUint32{}),
+	reflect.Uint64: reflect.TypeOf(zoo.SlUint64{}),
+}
+
 var scalarField = map[reflect.Kind]string{
 	reflect.Int: "I", reflect.Int8: "I8", reflect.Int16: "I16", reflect.Int32: "I32", reflect.Int64: "I64",
 	reflect.Uint: "U", reflect.Uint8: "U8", reflect.Uint16: "U16", reflect.Uint32: "U32", reflect.Uint64: "U64",
@@ -417,7 +424,7 @@ func sameNumber(orig reflect.Value, dec interface{}) bool {
 
 func c07kinds(c Case, env *Env, res *Result) {
 	r := rand.New(rand.NewSource(c.Seed))
-	positions := []string{"top", "elem", "map", "field"}
+	positions := []string{"top", "elem", "map", "field", "slfield", "slfield"}
 	for j := 0; j < c.Count; j++ {
 		t := intKindTypes[r.Intn(len(intKindTypes))]
 		pos := positions[r.Intn(len(positions))]
@@ -425,8 +432,11 @@ func c07kinds(c Case, env *Env, res *Result) {
 		if c.Sub >= 0 && j != c.Sub {
 			continue
 		}
-		if pos == "elem" && t.Kind() == reflect.Uint8 {
+		if (pos == "elem" || pos == "slfield") && t.Kind() == reflect.Uint8 {
 			pos = "field" // []uint8 is a byte array, not a list of integers
+		}
+		if _, ok := slFieldType[t.Kind()]; pos == "slfield" && !ok {
+			pos = "field"
 		}
 		feats := []string{"kind=" + t.Kind().String(), "pos=" + pos}
 		if beyond {
@@ -481,10 +491,65 @@ func c07kinds(c Case, env *Env, res *Result) {
 					}
 					return nil, false
 				}
+			case "slfield":
+				// a slice FIELD of a struct, sent without a name map (the list travels untyped) and
+				// decoded with a type map that holds classes only: the element conversion path
+				hv := reflect.New(slFieldType[t.Kind()])
+				s := reflect.MakeSlice(reflect.SliceOf(t), 3, 3)
+				s.Index(1).Set(xv)
+				s.Index(0).Set(reflect.ValueOf(1).Convert(t))
+				s.Index(2).Set(reflect.ValueOf(2).Convert(t))
+				hv.Elem().Field(0).Set(s)
+				o := classOnlyRoundTrip(hv.Interface())
+				switch {
+				case o.Panic != nil:
+					viol(o.Panic.Class, o.Stage+" panic "+o.Panic.Msg)
+				case o.EncErr != nil:
+					if !beyond {
+						viol("enc-error", o.EncErr.Error())
+					}
+				case o.DecErr != nil:
+					viol("dec-error", fmt.Sprintf("nil name map / class-only type map (%x) %v", o.Wire, o.DecErr))
+				default:
+					dv := reflect.ValueOf(o.Dec)
+					if dv.Kind() != reflect.Ptr || dv.IsNil() || dv.Elem().Type() != slFieldType[t.Kind()] || dv.Elem().Field(0).Len() != 3 {
+						viol("mismatch:shape", fmt.Sprintf("nil name map / class-only type map (%x) decoded as %T %v", o.Wire, o.Dec, o.Dec))
+					} else if got := dv.Elem().Field(0).Index(1).Interface(); !sameNumber(xv, got) {
+						cls := "mismatch:value"
+						if beyond {
+							cls = "silent-alteration"
+						}
+						viol(cls, fmt.Sprintf("nil name map / class-only type map (%x) decoded as %T %v", o.Wire, got, got))
+					}
+				}
+				return
 			case "field":
 				s := &zoo.Scalars{S: "x"}
 				reflect.ValueOf(s).Elem().FieldByName(scalarField[t.Kind()]).Set(xv)
 				val = s
+				// the same field behind wire fields the Go type does not have, holding a long / an int
+				// in each of their forms: stepping over them must leave the number alone
+				if !beyond && j%3 == 0 {
+					res.Count("integer_fields_after_unknown_integer_fields", 1)
+					gone := []*hspec.Value{hspec.Long(0), hspec.Long(2000), hspec.Long(-200000), hspec.Long(1 << 20), hspec.Long(-(1 << 30)), hspec.Long(1 << 40),
+						hspec.Int(7), hspec.Int(-2000), hspec.Int(200000), hspec.Int(1 << 30)}[(j/3)%10]
+					av := zoo.Denote(xv.Interface(), nil)
+					fname := scalarField[t.Kind()]
+					fname = strings.ToLower(fname[:1]) + fname[1:]
+					tm, _ := hessian.ExtractTypeNameMap(s)
+					ob := hspec.Object("Scalars", []string{"gone", fname, "gone2", "s"}, gone, av, gone, hspec.String("end"))
+					rb, _ := hspec.Encode(ob, hspec.Canonical{}, hspec.EncOpts{})
+					dv, derr := hessian.ToObject(rb, tm)
+					ds, _ := dv.(*zoo.Scalars)
+					switch {
+					case derr != nil:
+						viol("dec-error", fmt.Sprintf("behind unknown fields holding %s (%x): %v", hspec.ShortString(gone), rb, derr))
+					case ds == nil:
+						viol("mismatch:shape", fmt.Sprintf("behind unknown fields (%x): decoded as %T", rb, dv))
+					case ds.S != "end" || !sameNumber(xv, reflect.ValueOf(ds).Elem().FieldByName(scalarField[t.Kind()]).Interface()):
+						viol("mismatch:value", fmt.Sprintf("behind unknown fields holding %s (%x): decoded %v, s=%q", hspec.ShortString(gone), rb, reflect.ValueOf(ds).Elem().FieldByName(scalarField[t.Kind()]).Interface(), ds.S))
+					}
+				}
 				extract = func(d interface{}) (interface{}, bool) {
 					ds, ok := d.(*zoo.Scalars)
 					if !ok {
